@@ -178,3 +178,23 @@ Theorem C15_binary_pretend : forall pre cmd post locals lo hi flt order um w c e
   e_pretend e = true /\ snd r = MkSt w 0 [].
 Proof. exact binary_pretend. Qed.
 Print Assumptions C15_binary_pretend.
+
+(* (i) a boolean switch written with a value (Go's flag package: -name=v): every spelling
+   strconv.ParseBool accepts as true is the bare switch, every spelling it accepts as false switches
+   it off, anything else is a usage error -- for every flag set, name, value and position *)
+From LC Require Import Proofs.BoolFormsP.
+Theorem C15_switch_value_forms : forall fs n v rest acc,
+  plain_name n = true -> fs_lookup fs n = Some FBool ->
+  fparse fs ((dashc :: n ++ eqch :: v) :: rest) acc =
+  match parse_bool v with
+  | Some b0 => fparse fs rest ((n, if b0 then bs "true" else bs "false") :: acc)
+  | None => PErr
+  end.
+Proof. exact fparse_bool_value. Qed.
+Print Assumptions C15_switch_value_forms.
+
+Theorem C15_switch_on_forms : forall fs n v rest acc,
+  plain_name n = true -> fs_lookup fs n = Some FBool -> parse_bool v = Some true ->
+  fparse fs ((dashc :: n ++ eqch :: v) :: rest) acc = fparse fs ((dashc :: n) :: rest) acc.
+Proof. exact fparse_bool_on. Qed.
+Print Assumptions C15_switch_on_forms.
